@@ -55,6 +55,8 @@ def build_and_run(rep, lists: list[dict], d, literal: bool, tag: str) -> None:
                 es["type"] = "string"
             elif all(isinstance(v, int) for v in it["values"]):
                 es["type"] = "integer"
+            if it.get("tnull") and "type" in es:
+                es["type"] = [es["type"], "null"]
             hname, ename = f"H{tag}X{ci + i}", f"E{tag}X{ci + i}"
             if it["inline"]:
                 schemas[hname] = {"type": "object", "properties": {"e": es}}
@@ -150,7 +152,7 @@ def judge(rep, c, obs, g, literal: bool) -> None:
             continue
         r = obs["dec"].get(json.dumps(pv))
         if r and r["ok"]:
-            key = f"C14/unlisted-value-accepted/{style}/{kind}/{'nullable' if it['null'] else 'plain'}"
+            key = f"C14/unlisted-value-accepted/{style}/{kind}/{'nullable' if it['null'] else ('typenull' if it.get('tnull') else 'plain')}"
             rep.violate(key, f"unlisted value {pv!r} is accepted by enum {vals} (decodes to {r['value']!r})", values=vals, value=pv, null=it["null"])
     rn = obs["dec"].get("null")
     if it["null"]:
@@ -303,6 +305,9 @@ def run(rep) -> None:
                                                                       # characters outside ASCII / the BMP, combining marks, separators, controls: the value is data, member for member
                                                                       ["\U0001F44D", "x"], ["\U0001D4B3", "y"], ["a\u0301", "b"], ["\u00e9", "e"], ["\u65e5\u672c", "x"], ["\u2028", "x"],
                                                                       ["tab\there", "x"], ["back\\slash", "x"], ["new\nline", "x"], ["\u200b", "zw"], ["\ud7ff", "\ue000"], ["\x7f", "del"])]
+        # nullable by TYPE only (a type list with "null", the 3.1 form of `nullable: true`) while null is NOT among the values: the value list decides,
+        # so null and unlisted values are still refused
+        todo += [{"values": v, "null": False, "inline": i % 2 == 0, "tnull": True} for i, v in enumerate((["a", "b"], ["low", "high"], [1, 2], [0], ["x"], [-1, 0, 1]))]
         build_and_run(rep, todo, d, False, "c")
         build_and_run(rep, todo, d, True, "l")
         consts(rep, d)
